@@ -86,6 +86,17 @@ type sysIn struct {
 	Runs []sysRun `json:"runs"`
 }
 
+// the target field of apply-time mutation holds a token inside a fixed text; snapshots report what replaced the token
+// ("unset" while the token is still there), so that the model keeps speaking of the source's revision alone
+const sysFromPrefix = "v-"
+
+func canonFrom(v string) string {
+	if v == sysFromPrefix+"${tok}" {
+		return "unset"
+	}
+	return strings.TrimPrefix(v, sysFromPrefix)
+}
+
 const (
 	sysInvNs   = "ns1"
 	sysInvName = "inv"
@@ -195,7 +206,7 @@ func manifest(o sysObj) *unstructured.Unstructured {
 			ext = "- sourceRef:\n    kind: ConfigMap\n    name: absent\n    namespace: ns1\n  sourcePath: $.data.rev\n  targetPath: $.data.other\n"
 		}
 		ann["config.kubernetes.io/apply-time-mutation"] = ext + fmt.Sprintf(
-			"- sourceRef:\n    kind: %s\n    name: %s\n    namespace: %s\n  sourcePath: $.data.rev\n  targetPath: $.data.from\n", s[3], s[1], s[0])
+			"- sourceRef:\n    kind: %s\n    name: %s\n    namespace: %s\n  sourcePath: $.data.rev\n  targetPath: $.data.from\n  token: ${tok}\n", s[3], s[1], s[0])
 		if o.MutBad {
 			ann["config.kubernetes.io/apply-time-mutation"] = ann["config.kubernetes.io/apply-time-mutation"].(string) + fmt.Sprintf(
 				"- sourceRef:\n    kind: %s\n    name: %s\n    namespace: %s\n  sourcePath: $.data.nope\n  targetPath: $.data.other\n", s[3], s[1], s[0])
@@ -214,7 +225,7 @@ func manifest(o sysObj) *unstructured.Unstructured {
 	if o.ID[3] == "ConfigMap" || o.ID[3] == "Secret" || kindOf(o.ID[2], o.ID[3]) == nil {
 		data := map[string]interface{}{"rev": fmt.Sprint(o.Rev)}
 		if o.MutFrom != nil {
-			data["from"] = "unset"
+			data["from"] = sysFromPrefix + "${tok}" // the token is replaced by the source's data.rev
 		}
 		m["data"] = data
 	}
@@ -488,6 +499,7 @@ func takeSnapshot(c *fakecluster.Cluster) snapshot {
 		}
 		rev, _, _ := unstructured.NestedString(o.Object, "data", "rev")
 		frm, _, _ := unstructured.NestedString(o.Object, "data", "from")
+		frm = canonFrom(frm)
 		s.Objs = append(s.Objs, snapObj{ID: jidOfKey(k), UID: string(o.GetUID()), Gen: o.GetGeneration(),
 			Owner: o.GetAnnotations()[inventory.OwningInventoryKey], Deleting: o.GetDeletionTimestamp() != nil, Rev: rev, Frm: frm})
 	}
@@ -614,6 +626,10 @@ func runOne(c *fakecluster.Cluster, run sysRun) (out runOut) {
 		fmt.Sscanf(run.WatchErr, "mut:%d", &watchErrMut)
 	}
 	var cancelCalled atomic.Bool
+	// the last status report delivered per object; repeated once right after the first Timeout event of a wait phase (below)
+	var lastMu sync.Mutex
+	lastRS := map[object.ObjMetadata]*pollevent.ResourceStatus{}
+	lateStatusDone := map[string]bool{}
 	var atSyncRS atomic.Pointer[pollevent.ResourceStatus] // the status event on whose receipt the reader plays the "at-sync" scene
 	// barrier: accepted by the reader loop only between two events (see below)
 	barrier := make(chan struct{})
@@ -688,9 +704,20 @@ func runOne(c *fakecluster.Cluster, run sysRun) (out runOut) {
 			out.Anomaly = "build: " + err.Error()
 			return
 		}
+		// a caller that keeps its objects in memory hands the SAME objects to every run (the library annotates them in place, and
+		// must not otherwise change them): identical manifests of one history are built once
 		objs := object.UnstructuredSet{}
 		for _, o := range run.Objs {
-			objs = append(objs, manifest(o))
+			kb, _ := json.Marshal(o)
+			u, ok := c.Manifests[string(kb)]
+			if !ok {
+				u = manifest(o)
+				if c.Manifests == nil {
+					c.Manifests = map[string]*unstructured.Unstructured{}
+				}
+				c.Manifests[string(kb)] = u
+			}
+			objs = append(objs, u)
 		}
 		ch = a.Run(ctx, inv, objs, apply.ApplierOptions{
 			ServerSideOptions: common.ServerSideOptions{ServerSideApply: run.Opts.SSA, ForceConflicts: true, FieldManager: "verif"},
@@ -856,6 +883,9 @@ func runOne(c *fakecluster.Cluster, run sysRun) (out runOut) {
 			if !sw.send(pollevent.Event{Type: pollevent.ResourceUpdateEvent, Resource: rs}, stop) {
 				return false
 			}
+			lastMu.Lock()
+			lastRS[id] = rs
+			lastMu.Unlock()
 			delivered++
 			return sync2()
 		}
@@ -941,6 +971,7 @@ loop:
 			if e.Type == event.StatusType && e.StatusEvent.Identifier == fenceID {
 				continue
 			}
+			morePending := false
 			ce := canonEvent(e)
 			prevEventAt := lastEventAt
 			lastEventAt = time.Now()
@@ -987,9 +1018,25 @@ loop:
 					} else {
 						delete(p, k)
 					}
+					morePending = len(p) > 0
 				}
 			}
 			mu.Unlock()
+			if e.Type == event.WaitType && e.WaitEvent.Status == event.ReconcileTimeout && !run.Opts.EmitStatus && !lateStatusDone[e.WaitEvent.GroupName] && morePending {
+				// the deadline of the phase has fired and its Timeout events are being sent: this is the first, at least one more is
+				// to come, so the ending wait task is still sending (it waits for this reader) and the runner is idle in its select.
+				// The runner is handed one more status report for an object of the phase — a repetition of the last one, which
+				// changes nothing — so that its StatusUpdate and the ending wait task meet (they share the task's lock) before the
+				// task's result is delivered.
+				lateStatusDone[e.WaitEvent.GroupName] = true
+				lastMu.Lock()
+				rs := lastRS[e.WaitEvent.Identifier]
+				lastMu.Unlock()
+				if rs != nil {
+					cp := *rs
+					sw.send(pollevent.Event{Type: pollevent.ResourceUpdateEvent, Resource: &cp}, stop)
+				}
+			}
 			if e.Type == event.ActionGroupType && e.ActionGroupEvent.Action == event.WaitAction {
 				name := e.ActionGroupEvent.GroupName
 				if e.ActionGroupEvent.Status == event.Started {
